@@ -93,12 +93,23 @@ void hook(const void *model, int phase) {
 }
 }  // namespace sched
 
-static void schedScenario(int run, const Circuit &base, const ColoquinteParameters &p) {
-  static const char *modes[] = {"free", "xfirst", "yfirst", "alternate", "random", "delay"};
-  static const char *objs[] = {"A", "B", "C", "D", "E", "F"};
+static void schedScenario(int run, const Circuit &base, const ColoquinteParameters &p, bool pinned) {
+  static const char *modesAll[] = {"free", "xfirst", "yfirst", "alternate", "random", "delay"};
+  static const char *objsAll[] = {"A", "B", "C", "D", "E", "F"};
+  static const char *modesPinned[] = {"free", "delay"};
+  static const char *objsPinned[] = {"G", "H"};
+  const char **modes = pinned ? modesPinned : modesAll;
+  const char **objs = pinned ? objsPinned : objsAll;
+  if (pinned) {
+    // single-core affinity: the two solver threads and the main thread share one core
+    cpu_set_t set;
+    CPU_ZERO(&set);
+    CPU_SET(sched_getcpu() >= 0 ? sched_getcpu() : 0, &set);
+    sched_setaffinity(0, sizeof(set), &set);
+  }
   coloquinte::verif::solveHook = sched::hook;
   sched::run = run;
-  int nModes = (int)argi("modes", 6);
+  int nModes = pinned ? 2 : (int)argi("modes", 6);
   for (int m = 0; m < nModes; ++m) {
     Circuit c = base;
     sched::mode = modes[m];
@@ -216,7 +227,8 @@ int main(int argc, char **argv) {
     rs.set("params", vg::paramsToJson(p)).set("circ", vp::circuitToJson(base)).set("wl", base.hpwl());
     vt::emit(rs);
     if (scen == "sched") {
-      vt::forked((int)k, timeout, errPath, [&] { schedScenario((int)k, base, p); }, "sched");
+      vt::forked((int)k, timeout, errPath, [&] { schedScenario((int)k, base, p, false); }, "sched");
+      vt::forked((int)k, timeout, errPath, [&] { schedScenario((int)k, base, p, true); }, "sched");
     } else {
       runsScenario((int)k, base, p, r);
     }
